@@ -895,25 +895,38 @@ theorem agrees_bin (op : Op) (l r : SE) (hl : Agrees l) (hr : Agrees r)
               · rw [fold_cmp_true _ _ _ _ hc hh] at hd
                 exact absurd (hdx hd) (by simp)
 
-theorem agrees : ∀ e : SE, closed e = true → boolFree e = true → wellTyped e = true → Agrees e := by
+theorem agrees : ∀ e : SE, closed e = true → boolFree e = true → wellTyped e = true → valueKeeping e = true → Agrees e := by
   intro e
   induction e with
-  | num k => intro _ _ _; simp [Agrees, static, eval, isVec]
+  | num k => intro _ _ _ _; simp [Agrees, static, eval, isVec]
   | sel => intro hc; simp [closed] at hc
+  | fn keeps e ih =>
+    intro hc hb ht hk
+    simp only [closed] at hc
+    simp only [boolFree] at hb
+    simp only [wellTyped, Bool.and_eq_true] at ht
+    simp only [valueKeeping, Bool.and_eq_true] at hk
+    obtain ⟨hkeeps, hk⟩ := hk
+    subst hkeeps
+    obtain ⟨ha, hkn, _, hv⟩ := ih hc hb ht.2 hk
+    refine ⟨by simpa [static] using ha, by simpa [static] using hkn, fun h => by simp [isVec] at h, fun _ => ?_⟩
+    simpa [static, eval] using hv ht.1
   | vector e ih =>
-    intro hc hb ht
+    intro hc hb ht hvk
+    simp only [valueKeeping] at hvk
     simp only [closed] at hc
     simp only [boolFree] at hb
     simp only [wellTyped, Bool.and_eq_true, Bool.not_eq_true'] at ht
-    obtain ⟨_, hk, hs, _⟩ := ih hc hb ht.2
+    obtain ⟨_, hk, hs, _⟩ := ih hc hb ht.2 hvk
     obtain ⟨he, _⟩ := hs ht.1
     simp [Agrees, static, eval, isVec, hk, he]
   | neg e ih =>
-    intro hc hb ht
+    intro hc hb ht hvk
+    simp only [valueKeeping] at hvk
     simp only [closed] at hc
     simp only [boolFree] at hb
     simp only [wellTyped] at ht
-    obtain ⟨ha, hk, hs, hv⟩ := ih hc hb ht
+    obtain ⟨ha, hk, hs, hv⟩ := ih hc hb ht hvk
     have hst : static (.neg e) = { (static e) with num := -(static e).num } := by simp [static, hk]
     refine ⟨by rw [hst]; exact ha, by rw [hst]; exact hk, ?_, ?_⟩
     · intro hve
@@ -938,18 +951,19 @@ theorem agrees : ∀ e : SE, closed e = true → boolFree e = true → wellTyped
         rw [hst] at hd
         simp [hdead hd]
   | bin op isBool l r ihl ihr =>
-    intro hc hb ht
+    intro hc hb ht hvk
+    simp only [valueKeeping, Bool.and_eq_true] at hvk
     simp only [closed, Bool.and_eq_true] at hc
     simp only [boolFree, Bool.and_eq_true, Bool.not_eq_true'] at hb
     simp only [wellTyped, Bool.and_eq_true] at ht
     obtain ⟨⟨hbool, hbl⟩, hbr⟩ := hb
     subst hbool
-    exact agrees_bin op l r (ihl hc.1 hbl ht.1.1) (ihr hc.2 hbr ht.1.2) (by simpa using ht.2)
+    exact agrees_bin op l r (ihl hc.1 hbl ht.1.1 hvk.1) (ihr hc.2 hbr ht.1.2 hvk.2) (by simpa using ht.2)
 
 /-- **C12, static verdicts**: a closed, `bool`-free query that `calculateStaticReturn` declares dead returns nothing -/
 theorem static_dead_returns_nothing (e : SE) (hc : closed e = true) (hb : boolFree e = true) (ht : wellTyped e = true)
-    (hd : (static e).dead = true) : eval e = .v none := by
-  obtain ⟨_, _, hs, hv⟩ := agrees e hc hb ht
+    (hk : valueKeeping e = true) (hd : (static e).dead = true) : eval e = .v none := by
+  obtain ⟨_, _, hs, hv⟩ := agrees e hc hb ht hk
   cases hve : isVec e
   · have := (hs hve).2; rw [hd] at this; cases this
   · obtain ⟨x, hx, _, hdead⟩ := hv hve
@@ -957,8 +971,8 @@ theorem static_dead_returns_nothing (e : SE) (hc : closed e = true) (hb : boolFr
 
 /-- and the number pint folds further is the value the query returns, whenever it returns one -/
 theorem static_number_is_the_value (e : SE) (hc : closed e = true) (hb : boolFree e = true) (ht : wellTyped e = true)
-    (k : Int) (hv : eval e = .v (some k) ∨ eval e = .s k) : (static e).num = k := by
-  obtain ⟨_, _, hs, hvec⟩ := agrees e hc hb ht
+    (hk : valueKeeping e = true) (k : Int) (hv : eval e = .v (some k) ∨ eval e = .s k) : (static e).num = k := by
+  obtain ⟨_, _, hs, hvec⟩ := agrees e hc hb ht hk
   cases hve : isVec e
   · have he := (hs hve).1
     rcases hv with h | h
@@ -974,6 +988,16 @@ theorem static_number_is_the_value (e : SE) (hc : closed e = true) (hb : boolFre
 theorem static_bool_not_sound :
     ∃ e : SE, closed e = true ∧ wellTyped e = true ∧ (static e).dead = true ∧ eval e = .v (some 0) :=
   ⟨.bin .gt true (.vector (.num 0)) (.num 2), by decide⟩
+
+/-- a function that changes values makes the number unknown (fix 5cb81d1: `abs(vector(-1)) > 0` was folded to `-1 > 0`
+and reported as dead code) - but a known number next to it survives a vector-vector operation: `(vector(2) +
+abs(vector(-1))) > 2` is still folded to `2 > 2` and declared dead although it returns 3. That is the recorded
+finding `C12-unless-through-join` (constant-through-vector-matching) at the level of the model, and the reason the
+theorems above ask for `valueKeeping`. -/
+theorem static_stale_through_join_not_sound :
+    (static (.bin .gt false (.fn false (.vector (.num (-1)))) (.num 0))).dead = false ∧
+    ∃ e : SE, closed e = true ∧ boolFree e = true ∧ wellTyped e = true ∧ (static e).dead = true ∧ eval e = .v (some 3) :=
+  ⟨by decide, .bin .gt false (.bin .add false (.vector (.num 2)) (.fn false (.vector (.num (-1))))) (.num 2), by decide⟩
 
 /-- non-vacuity: `vector(1) > 2` is declared dead, `(vector(3) > 2) + 1` is not and is known to return 4 -/
 example :
